@@ -93,6 +93,19 @@ def codecMonStep (st : MonSt) (w : List String) : MonSt × String :=
     if st.parsedFrom.isSome || st.wire.isSome then
       out ({ st with abs := none, parsedFrom := none, wire := none }, panicOf "copy")
     else out (st, panicOf "copy")
+  | ["fork"] =>
+    -- the copy kept aside is the message as it is now, whatever happens to the source afterwards
+    if st.parsedFrom.isSome || st.wire.isSome then out ({ st with side := none }, panicOf "copy")
+    else out ({ st with side := st.abs }, panicOf "copy")
+  | ["sidebuild"] =>
+    (match obs with
+     | ["none"] => (st, "ok")
+     | ["bytes", h, _] =>
+       (match fromHex h, st.side with
+        | some b, some a => out ({ st with side := some a.cook }, monBuild a b)
+        | some _, none => (st, "ok")
+        | none, _ => (st, "bad-op"))
+     | _ => out (st, panicOf "build" ++ (if obs == ["panic"] then [] else ["build_failed"])))
   | [k] =>
     if k = "build" ∨ k = "bytes" then
       (match obs with
